@@ -42,6 +42,13 @@ pub fn base_history(r: &mut Sm, idx: usize) -> History {
     let (h1, h2) = (*r.pick(&hosts), *r.pick(&hosts));
     let mut p1 = gen_problem(r, &spec, h1);
     let mut p2 = gen_problem(r, &spec, h2);
+    // now and then the problem lists a second start state (a random state: valid or not)
+    for p in [&mut p1, &mut p2] {
+        if r.bool(0.1) {
+            p.extra_starts.push(crate::world::rand_state(r, &spec));
+            p.tags.push("several-start-states".into());
+        }
+    }
     if h1 == Hostility::InvalidStart && r.bool(0.3) {
         p1.put_goal_on_start();
     }
@@ -148,11 +155,17 @@ fn judge_history<K: Kit>(ctx: &Ctx, b: &mut Batch, kit: &K, h: &History, recs: &
                 }
                 let start = kit.unflat(&prob.start);
                 if !eval.valid(&start, &prob.start) {
-                    b.count("model[invalid-start]", 1);
-                    if c.res != Res::Err(ErrKind::InvalidStartState) {
-                        unexpected("invalid-start");
+                    // with several listed start states the error is only mandatory when none of
+                    // them is valid; a planner may also plan from a valid one (judged below)
+                    let other_valid = prob.extra_starts.iter().any(|e| eval.valid(&kit.unflat(e), e));
+                    if !other_valid || c.res == Res::Err(ErrKind::InvalidStartState) {
+                        b.count("model[invalid-start]", 1);
+                        if c.res != Res::Err(ErrKind::InvalidStartState) {
+                            unexpected("invalid-start");
+                        }
+                        continue;
                     }
-                    continue;
+                    b.count("model[first-start-invalid-another-valid]", 1);
                 }
                 match &c.res {
                     Res::Path(p) => {
@@ -161,7 +174,14 @@ fn judge_history<K: Kit>(ctx: &Ctx, b: &mut Batch, kit: &K, h: &History, recs: &
                             b.distinct.insert(super::paths::hash_path(p));
                         }
                         // the answer must be for the problem installed most recently
-                        let first_ok = !p.is_empty() && p[0].iter().zip(prob.start.iter()).all(|(x, y)| x.to_bits() == y.to_bits()) && p[0].len() == prob.start.len();
+                        let same = |a: &Vec<f64>, b: &Vec<f64>| a.len() == b.len() && a.iter().zip(b.iter()).all(|(x, y)| x.to_bits() == y.to_bits());
+                        let first_ok = !p.is_empty() && (same(&p[0], &prob.start) || prob.extra_starts.iter().any(|e| same(&p[0], e)));
+                        if let (true, Some(bad)) = (first_ok, p.iter().position(|s| !eval.valid(&kit.unflat(s), s))) {
+                            if !prob.extra_starts.is_empty() {
+                                ctx.violate(&format!("stale-answer:{pname}:validity"), format!("call {ci}: path[{bad}] is invalid in the world of the installed checker (P{}) [history: {}]", ki + 1, h.describe()), replay());
+                                continue;
+                            }
+                        }
                         if !first_ok {
                             ctx.violate(&format!("stale-answer:{pname}:start"), format!("call {ci}: path starts at {:?} but the installed problem P{} starts at {:?} [history: {}]", p.first(), pi + 1, prob.start, h.describe()), replay());
                         } else {
